@@ -154,10 +154,22 @@ func Gen(r *vh.Rand, o GenOpts) Scenario {
 	}
 	sc.Receivers = map[string][]IntJ{"default": mkInts()}
 	if o.Routes && r.Chance(2, 3) {
-		nr := r.Range(1, 2)
+		nr := r.Range(1, 3)
 		for i := 0; i < nr; i++ {
-			rj := RouteJ{Receiver: vh.Pick(r, []string{"default", "team"}), Continue: r.Chance(1, 3)}
+			rj := RouteJ{Receiver: vh.Pick(r, []string{"default", "team", "audit"}), Continue: r.Chance(1, 2)}
 			rj.Match = map[string]string{vh.Pick(r, []string{"job", "sev"}): vh.Pick(r, []string{"a", "b"})}
+			// sibling routes with identical matchers have identical route keys, hence identical group keys and
+			// (for the same receiver) shared notification-log entries: a configuration oddity outside the
+			// properties; the per-group-key conversion below needs distinct keys
+			dupMatch := false
+			for _, o := range sc.Routes {
+				if fmt.Sprint(o.Match) == fmt.Sprint(rj.Match) {
+					dupMatch = true
+				}
+			}
+			if dupMatch {
+				continue
+			}
 			rj.GroupBy = vh.Pick(r, [][]string{nil, nil, {"job"}, {}, {"..."}})
 			sc.Routes = append(sc.Routes, rj)
 			if _, ok := sc.Receivers[rj.Receiver]; !ok {
@@ -309,7 +321,7 @@ func Run(t *testing.T, sc *Scenario) *Result {
 			res.Hash[sim.HashAlert(ls)] = i + 1
 		}
 	}
-	synctest.Test(t, func(t *testing.T) {
+	ok := sim.Bubble(t, 20*time.Second, func(t *testing.T) {
 		ints := map[string][]sim.IntSpec{}
 		for name, ij := range sc.Receivers {
 			for i, x := range ij {
@@ -388,6 +400,9 @@ func Run(t *testing.T, sc *Scenario) *Result {
 		}
 		s.Stop()
 	})
+	if !ok {
+		return nil // the bubble froze (see sim.Bubble): scenario skipped
+	}
 	return res
 }
 
@@ -914,6 +929,56 @@ func Monitor(res *Result, which string) []vh.Violation {
 			}
 		}
 	}
+	// ---- C05: a receiver that was told "firing" is eventually told "resolved" (send_resolved, no suppression) ----
+	if which == "C05" && len(res.GCs) == 0 && !res.hasSilenceOps() {
+		lastPub := map[int]sim.AlertObs{}
+		lastPubT := map[int]int64{}
+		for _, r := range res.Recs {
+			if r.Kind == "publish" {
+				id := res.idOf(r.Alerts[0].Labels)
+				lastPub[id], lastPubT[id] = r.Alerts[0], r.T
+			}
+		}
+		for _, gk := range keys {
+			g := res.Groups[gk]
+			if g == nil {
+				continue
+			}
+			for i, ij := range g.Ints {
+				if !ij.SendResolved {
+					continue
+				}
+				// last log write of this (group, integration); a later write at the same instant is ignored (DESIGN I5)
+				var last *sim.Rec
+				for _, f := range fl[gk] {
+					for k := range f.Logs {
+						l := f.Logs[k]
+						if l.I == i && (last == nil || l.T > last.T) {
+							last = &f.Logs[k]
+						}
+					}
+				}
+				if last == nil {
+					continue
+				}
+				lf, lr := res.ids(last.Firing), res.ids(last.Resolved)
+				for id := range lf {
+					a, ok := lastPub[id]
+					if !ok || lr[id] || a.Ends == 0 {
+						continue
+					}
+					settle := a.Ends
+					if lastPubT[id] > settle {
+						settle = lastPubT[id]
+					}
+					// two group intervals plus a full flush after the alert ended: the resolved notification is overdue
+					if settle+2*g.GI+g.Timeout+res.Wait < res.TEnd {
+						add("told-firing-never-told-resolved", fmt.Sprintf("group %s integration %d: alert %d was last reported firing at %d, ended at %d, run ended at %d without a resolved notification", gk, i, id, last.T, a.Ends, res.TEnd))
+					}
+				}
+			}
+		}
+	}
 	// ---- C05: an alert that fires again during the delivery of its resolved notification is not lost ----
 	if which == "C05" {
 		for _, r := range res.Recs {
@@ -1089,6 +1154,15 @@ func MonitorC06(res *Result) []vh.Violation {
 func containsStr(xs []string, x string) bool {
 	for _, y := range xs {
 		if y == x {
+			return true
+		}
+	}
+	return false
+}
+
+func (res *Result) hasSilenceOps() bool {
+	for _, op := range res.Sc.Ops {
+		if op.Kind == "silence" || op.Kind == "expire" {
 			return true
 		}
 	}
